@@ -66,6 +66,13 @@ Step ==
     /\ l <= N /\ l' = l + 1
     /\ LET e == Rec[l] IN
        IF e.e = "fstream" THEN fs' = [frames |-> e.frames, len |-> e.len] /\ UNCHANGED <<viol, cov>>
+       ELSE IF e.e = "bulky" THEN
+            \* a connection closed by the server with a large answer still unsent must not stall the others, and what
+            \* it had completely sent (the quiet store "done" = "yes") is executed
+            /\ fs' = fs
+            /\ IF e.alive /\ e.fresh /\ e.done = "796573" THEN cov' = Count(cov, "bulky.contained") /\ UNCHANGED viol
+               ELSE viol' = Append(viol, [line |-> l, tags |-> {"C18"}, rule |-> IF e.alive /\ e.fresh THEN "bulky.complete.request.lost" ELSE "bulky.others.stalled",
+                                         cut |-> 0, kind |-> "bulky"]) /\ UNCHANGED cov
        ELSE LET j == Judge(e) IN
             /\ fs' = fs
             /\ IF j.tags = {} THEN cov' = Count(cov, j.rule) /\ UNCHANGED viol
